@@ -83,6 +83,7 @@ def run(runobj, spec, timeout=10.0, only=None, verbose=False):
            "trusted_base": set(), "samples": [], "assumed_contracts": set(), "trivial": 0}
     eng.defer = True
     eng.cover_timeout = 1.0 if runobj.tier == "quick" else 5.0
+    eng.final_pass = runobj.tier != "quick"
     reps = [(c, eng.verify(c, timeout=timeout)) for c in cs]
     eng.discharge_many([r for _, r in reps], timeout, jobs=int(os.environ.get("PYVC_JOBS", "15")))
     undecided_by_contract = {}
@@ -137,16 +138,55 @@ def run(runobj, spec, timeout=10.0, only=None, verbose=False):
                 else:
                     res["undecided"].append({"obligation": o.name, "status": r.status, "what": o.detail[:160],
                                              "attempts": r.attempts})
-                    undecided_by_contract.setdefault(id(c), (c, []))[1].append(o)
+                    if not getattr(o, "oos", False):
+                        undecided_by_contract.setdefault(id(c), (c, []))[1].append(o)
             if verbose:
                 print(f"  {c.name}: {frec['discharged']}/{frec['obligations']} paths={rep.paths} {rep.wall:.1f}s")
             res["functions"].append(frec)
     finally:
         pass
+    # CPython cross-check: every contract under verification is also run natively over its concrete pool.  This shows the
+    # requires clause is satisfiable by real inputs (non-vacuity) and that what the solver accepted is true of CPython's
+    # behaviour on those inputs (a native violation of a discharged contract would expose an unsound encoding).
+    per = 40 if runobj.tier == "quick" else 1500
+    t_m = time.time()
+    mon = {}
+    for c, rep in reps:
+        if time.time() - t_m > (30.0 if runobj.tier == "quick" else 600.0):
+            break
+        n_eval = n_skip = 0
+        first_bad = None
+        try:
+            for fn, args in pools.pool(c, seed=runobj.seed, limit=per * 6):
+                try:
+                    r = monitor.check_call(c, fn, args)
+                except Exception:
+                    continue
+                if r == "skip":
+                    n_skip += 1
+                    continue
+                n_eval += 1
+                if isinstance(r, dict) and first_bad is None:
+                    first_bad = r
+                if n_eval >= per:
+                    break
+        except Exception:
+            pass
+        mon[c.name] = {"evaluated": n_eval, "requires_false": n_skip}
+        if first_bad is not None and id(c) not in undecided_by_contract and not any(f["obligation"].startswith(c.name + "/") for f in res["failed"]):
+            payload = {"obligation": f"{c.name}/native", "what": f"contract violated natively although its obligations were discharged: {first_bad['detail'][:200]}",
+                       "contract": c.name, "function": c.key, "witness": first_bad}
+            runobj.classify(f"{c.name}/native", payload)
+    res["monitor_evaluations"] = mon
     # an undecided obligation is never a verdict by itself; but the same contract is run natively over its pool:
     # a native violation of the contract is a real counterexample and is reported with its replay
+    wbudget = 25.0 if runobj.tier == "quick" else 240.0
+    t_w = time.time()
     for c, obls in undecided_by_contract.values():
-        wit, tried = witness_search(c, None, seed=runobj.seed, budget=15.0)
+        left = wbudget - (time.time() - t_w)
+        if left <= 0.5:
+            break
+        wit, tried = witness_search(c, None, seed=runobj.seed, budget=min(8.0 if runobj.tier == "quick" else 30.0, left))
         if wit:
             o = obls[0]
             payload = {"obligation": o.name, "what": f"{o.kind} obligation undecided by the solvers ({o.detail[:120]}); the contract is violated natively: {wit['detail'][:200]}",
